@@ -184,12 +184,51 @@ pub proof fn lemma_mg_sem<const K: usize>(am: AArena<K>, a2: AArena<K>, h: Map<u
 pub open spec fn fwd_unaffected<const K: usize>(a1: AArena<K>, h1: Map<usize, nat>, root: usize, p: usize, x: V) -> bool {
     !(reaches(a1, h1, root, x, p) && !kid_in_state(a1, p, decide(&a1[p].value.aff, x), true))
 }
+pub proof fn lemma_rm_ranked<const K: usize>(a1: AArena<K>, am: AArena<K>, h: Map<usize, nat>, p: usize, ls: ISet<int>)
+    requires removed_set(a1, am, p, ls), ranked_down(a1, h)
+    ensures ranked_down(am, h)
+{
+    reveal(removed_set);
+    assert forall|i: usize, l: int| #![trigger am[i].children[l]] am.dom().contains(i) && 0 <= l < K && am[i].children[l].is_some() implies h[am[i].children[l].unwrap()] < h[i] by {
+        if i != p { assert(am[i] == a1[i]); } else { assert(am[p].children[l] == a1[p].children[l]); }
+    }
+}
+// the acting case, same height map h on all three arenas
+pub proof fn lemma_fwd_sem_act<const K: usize>(a1: AArena<K>, am: AArena<K>, a2: AArena<K>, h: Map<usize, nat>, root: usize, p: usize, f: int, x: V)
+    requires wf_at(a1, Some(root)), wf_at(am, Some(root)), wf_at(a2, Some(root)), a1.dom().contains(p), ranked_down(a1, h),
+        removed_set(a1, am, p, infeasible_slots(a1, p)), merge_post(am, a2, p, f as usize, root == p),
+        kid_in_state(a1, p, f, true), forall|g: int| kid_in_state(a1, p, g, true) ==> g == f,
+        fwd_unaffected(a1, h, root, p, x),
+    ensures ranked_down(a2, h), tree_fn(a2, h, root, x) == tree_fn(a1, h, root, x),
+        forall|t: usize| t != p && reaches(a2, h, root, x, t) ==> reaches(a1, h, root, x, t),
+        forall|t: usize| t != p && reaches(a1, h, root, x, t) ==> reaches(a2, h, root, x, t),
+{
+    let ls = infeasible_slots(a1, p);
+    assert(!ls.contains(f));
+    assert(a1[p].children[f] is Some);
+    lemma_removed_facts(a1, am, p, ls);
+    assert(am.dom().contains(root));
+    assert(!(reaches(a1, h, root, x, p) && ls.contains(decide(&a1[p].value.aff, x))));
+    lemma_rm_sem(a1, am, h, p, ls, root, x);
+    lemma_rm_ranked(a1, am, h, p, ls);
+    if root == p {
+        assert(a2 == am);
+    } else {
+        let gl = choose|gl: int| #[trigger] merged(am, a2, p, f as usize, gl);
+        assert(am[p].value == a1[p].value);
+        lemma_mg_ranked(am, a2, h, p, f as usize, gl);
+        assert(!(reaches(am, h, root, x, p) && decide(&am[p].value.aff, x) != f)) by {
+            if reaches(am, h, root, x, p) { assert(reaches(a1, h, root, x, p)); assert(kid_in_state(a1, p, decide(&a1[p].value.aff, x), true)); }
+        }
+        lemma_mg_sem(am, a2, h, p, f as usize, gl, root, x);
+    }
+}
 pub proof fn lemma_fwd_sem<const K: usize>(a1: AArena<K>, a2: AArena<K>, h1: Map<usize, nat>, h2: Map<usize, nat>, root: usize, p: usize, x: V)
     requires wf_at(a1, Some(root)), wf_at(a2, Some(root)), a1.dom().contains(p), forward_post(a1, a2, p, Some(root)), ranked_down(a1, h1), ranked_down(a2, h2),
         fwd_unaffected(a1, h1, root, p, x),
     ensures tree_fn(a2, h2, root, x) == tree_fn(a1, h1, root, x),
         forall|t: usize| t != p && reaches(a2, h2, root, x, t) ==> reaches(a1, h1, root, x, t),
-        forall|t: usize| t != p && a2.dom().contains(t) && reaches(a1, h1, root, x, t) ==> reaches(a2, h2, root, x, t),
+        forall|t: usize| t != p && reaches(a1, h1, root, x, t) ==> reaches(a2, h2, root, x, t),
 {
     if count_state(a1, p, 0, true) == 1 && count_state(a1, p, 0, false) == K - 1 {
         let ls = infeasible_slots(a1, p);
@@ -198,41 +237,15 @@ pub proof fn lemma_fwd_sem<const K: usize>(a1: AArena<K>, a2: AArena<K>, h1: Map
         lemma_count_exists(a1, p, 0, true);
         let f = choose|f: int| 0 <= f < K && kid_in_state(a1, p, f, true);
         assert(merge_post(am, a2, p, f as usize, Some(root) == Some(p)));
-        assert(!ls.contains(f));
-        assert(a1[p].children[f] is Some);
         // f is the only feasible slot
         assert forall|g: int| kid_in_state(a1, p, g, true) implies g == f by {
             if g < f { lemma_count_one(a1, p, 0, g, f, true); } else if f < g { lemma_count_one(a1, p, 0, f, g, true); }
         }
-        lemma_removed_facts(a1, am, p, ls);
-        assert(am.dom().contains(root));
-        assert(!(reaches(a1, h1, root, x, p) && ls.contains(decide(&a1[p].value.aff, x))));
-        lemma_rm_sem(a1, am, h1, p, ls, root, x);
-        assert(ranked_down(am, h1)) by {
-            reveal(removed_set);
-            assert forall|i: usize, l: int| #![trigger am[i].children[l]] am.dom().contains(i) && 0 <= l < K && am[i].children[l].is_some() implies h1[am[i].children[l].unwrap()] < h1[i] by {
-                if i != p { assert(am[i] == a1[i]); } else { assert(am[p].children[l] == a1[p].children[l]); }
-            }
-        }
-        if root == p {
-            assert(a2 == am);
-            lemma_tree_fn_rank_indep(a2, h1, h2, root, x);
-            assert forall|t: usize| reaches(a2, h2, root, x, t) == reaches(a2, h1, root, x, t) by { lemma_reaches_rank_indep(a2, h1, h2, root, x, t); }
-        } else {
-            let gl = choose|gl: int| #[trigger] merged(am, a2, p, f as usize, gl);
-            assert(am[p].value == a1[p].value);
-            lemma_mg_ranked(am, a2, h1, p, f as usize, gl);
-            assert(!(reaches(am, h1, root, x, p) && decide(&am[p].value.aff, x) != f)) by {
-                if reaches(am, h1, root, x, p) { assert(reaches(a1, h1, root, x, p)); assert(kid_in_state(a1, p, decide(&a1[p].value.aff, x), true)); }
-            }
-            lemma_mg_sem(am, a2, h1, p, f as usize, gl, root, x);
-            lemma_tree_fn_rank_indep(a2, h1, h2, root, x);
-            assert forall|t: usize| reaches(a2, h2, root, x, t) == reaches(a2, h1, root, x, t) by { lemma_reaches_rank_indep(a2, h1, h2, root, x, t); }
-        }
+        lemma_fwd_sem_act(a1, am, a2, h1, root, p, f, x);
     } else {
         assert(a2 == a1);
-        lemma_tree_fn_rank_indep(a1, h1, h2, root, x);
-        assert forall|t: usize| reaches(a1, h2, root, x, t) == reaches(a1, h1, root, x, t) by { lemma_reaches_rank_indep(a1, h1, h2, root, x, t); }
     }
+    lemma_tree_fn_rank_indep(a2, h1, h2, root, x);
+    assert forall|t: usize| reaches(a2, h2, root, x, t) == reaches(a2, h1, root, x, t) by { lemma_reaches_rank_indep(a2, h1, h2, root, x, t); }
 }
 // ---- end sem_spec ----
